@@ -15,6 +15,7 @@ import re
 
 from .. import envmode, entropy
 from ..kernel import Violation, Budget, Discard, SimCrash, DrawCap, feq, cjson
+from ..kernel import quiet_print as _quiet_print
 from ..gen import gen_seq, same_classes_other_letters
 from ..clock import SimClock, MODES
 from ..rng import RngModule, MTRandom, TapeRandom, UniformDriver
@@ -1003,8 +1004,8 @@ def execute(plan, ctx):
         class SequenceException(Exception):
             pass
     envmode.apply(plan.get("env"), ctx)
-    spmod.print = lambda *a, **k: None
-    wl.print = lambda *a, **k: None
+    spmod.print = _quiet_print
+    wl.print = _quiet_print
     clock = SimClock(ctx, ctx.streams.stream("clock"), plan.get("clock_mode", "normal"))
     wl.t = clock
     wl.time = clock
